@@ -77,9 +77,54 @@ package phantoms
 //@   invariant 0 <= iter && fresh(out)
 //@   invariant forall i int :: 0 <= i && i < len(out) ==> out[i] != nil && out[i].IPNet != nil && len(out[i].IPNet.IP) != 4 && !isV4Mapped(out[i].IPNet.IP)
 
-// The station's selector as registration ingest uses it (result shape only; address well-formedness per subnet is
-// verified on the functions above under C14). Not verified against the body: several legacy selection paths.
+// ---------------- C01: station and client run the same, published selection routine ----------------
+// Published algorithm (client library versions): the weighted subnet group is chosen with the legacy varint /
+// math-rand chooser for versions 0 and 1 and with the HKDF chooser from version 2 on; the address inside the group is
+// chosen by the V0 routine for version 0, the varint routine for version 1 and the HKDF routine from version 2 on;
+// the group choice is always weighted. The client entry point SelectPhantom (current clients, version >= 2) uses the
+// HKDF chooser and the HKDF address routine, i.e. exactly what the station uses for those versions, with the seed and
+// the weighted flag passed through unchanged.
+//@ func subnetsByVersion(seed []byte, clientLibVer uint, genConfig *SubnetConfig) ([]*phantomNet, error)
+//@   requires genConfig != nil
+//@   atcall getSubnetsVarint before: assert @C01: clientLibVer < 2 && arg0 == genConfig && arg2
+//@   atcall getSubnetsVarint before: snap usedVarint := true
+//@   atcall getSubnetsHkdf before: assert @C01: clientLibVer >= 2 && arg2
+//@   atcall getSubnetsHkdf before: snap usedHkdf := true
+//@   ensures @C01: (clientLibVer < 2 ==> defined(usedVarint)) && (clientLibVer >= 2 ==> defined(usedHkdf))
+// (assumed clause: both choosers return parsed, non-nil subnets - proved for the HKDF chooser under C14, not for the legacy one)
+//@   ensures @DET: result1 == nil ==> (forall i int :: 0 <= i && i < len(result0) ==> result0[i] != nil && result0[i].IPNet != nil)
+
 //@ func (p *PhantomIPSelector) Select(seed []byte, generation uint, clientLibVer uint, v6Support bool) (*PhantomIP, error)
-//@   ensures result1 == nil ==> result0 != nil && result0.ip != nil
+//@   requires p != nil
+//@   atcall subnetsByVersion before: assert @C01: arg1 == clientLibVer
+//@   atcall V6Only before: assert @C01: v6Support
+//@   atcall V4Only before: assert @C01: !v6Support
+//@   atcall selectPhantomImplV0 before: assert @C01: clientLibVer < 1
+//@   atcall selectPhantomImplV0 before: snap usedV0 := true
+//@   atcall selectPhantomImplVarint before: assert @C01: clientLibVer == 1
+//@   atcall selectPhantomImplVarint before: snap usedV1 := true
+//@   atcall selectPhantomImplHkdf before: assert @C01: clientLibVer >= 2
+//@   atcall selectPhantomImplHkdf before: snap usedV2 := true
+//@   ensures @C01: result1 == nil ==> (clientLibVer < 1 ==> defined(usedV0)) && (clientLibVer == 1 ==> defined(usedV1)) && (clientLibVer >= 2 ==> defined(usedV2))
+// (result shape as registration ingest uses it: assumed clause - the legacy selection routines are not under contract;
+// address well-formedness per subnet is verified on the functions above under C14)
+//@   ensures @DET: result1 == nil ==> result0 != nil && result0.ip != nil
 //@   assigns nothing
-//@   trusted
+
+//@ func getSubnets(sc genericSubnetConfig, seed []byte, weighted bool) ([]*phantomNet, error)
+//@   requires sc != nil
+//@   atcall getSubnetsHkdf before: assert @C01: arg0 == sc && arg2 == weighted
+//@   atcall getSubnetsHkdf before: snap usedHkdf := true
+//@   ensures @C01: defined(usedHkdf)
+
+//@ func selectIPAddr(seed []byte, subnets []*phantomNet) (*PhantomIP, error)
+//@   atcall selectPhantomImplHkdf before: snap usedV2 := true
+//@   ensures @C01: defined(usedV2)
+
+//@ func SelectPhantom(seed []byte, subnetsList *pb.PhantomSubnetsList, transform SubnetFilter, weighted bool) (*PhantomIP, error)
+//@   atcall getSubnets before: assert @C01: arg2 == weighted
+//@   atcall getSubnets before: snap choseGroup := true
+//@   atcall selectIPAddr before: assert @C01: defined(choseGroup)
+//@   atcall selectIPAddr before: snap choseAddr := true
+//@   ensures @C01: result1 == nil ==> defined(choseAddr)
+//@   dynamiccalls assigns memory
